@@ -43,7 +43,7 @@ Definition presult_eqb (a b : presult) :=
   match a, b with PNone, PNone | PMany, PMany => true | PFound i, PFound j => id_eqb i j | _, _ => false end.
 Definition action_eqb (a b : action) : bool :=
   match a, b with
-  | AEntRemove k i, AEntRemove k' i' | ACacheRemove k i, ACacheRemove k' i' => kind_eqb k k' && id_eqb i i'
+  | AEntRemove k i, AEntRemove k' i' | ACacheRemove k i, ACacheRemove k' i' | AStaleCommit k i, AStaleCommit k' i' => kind_eqb k k' && id_eqb i i'
   | AEntRemoveAll k, AEntRemoveAll k' => kind_eqb k k'
   | ACacheRemoveAll, ACacheRemoveAll | ACliWipe, ACliWipe | ARebuild, ARebuild | AReopen, AReopen => true
   | ACliRm p, ACliRm p' => id_eqb p p'
@@ -137,7 +137,9 @@ Definition mismatches (cs : list case) : list nat := index_filter model_agrees 0
 (* ================================================================== the property, on the implementation's observations *)
 
 Definition of_ent (e : ent) (n : rname) : bool := kind_eqb (rk n) (fst e) && id_eqb (rid n) (snd e).
-Definition is_gb (n : rname) : bool := is_entity_kind (rk n).
+(* git-bug's refs: the whole of refs/bugs/ and refs/identities/, and refs/remotes/<remote>/{bugs,identities}/<valid id>;
+   other names under the latter are the user's remote-tracking branches (Remove.is_gbref) *)
+Definition is_gb (n : rname) : bool := is_gbref n.
 
 Definition obs_no_ref (e : ent) (o : obs) : bool := forallb (fun p => negb (of_ent e (fst p))) (o_refs o).
 Definition obs_not_cached (e : ent) (o : obs) : bool :=
@@ -205,7 +207,8 @@ Definition removal_ok (a : action) (out : xout) (o o' : obs) : bool * list ent *
            end
       else (refs_same o o' && rest_same_obs o o', [], false)
   | AEntRemoveAll k =>
-      (forallb (fun p => negb (kind_eqb (rk (fst p)) k)) (o_refs o') && refs_same_but (fun n => kind_eqb (rk n) k) o o' && rest_same_obs o o', [], false)
+      (forallb (fun p => negb (kind_eqb (rk (fst p)) k && is_gb (fst p))) (o_refs o') &&
+       refs_same_but (fun n => kind_eqb (rk n) k && is_gb n) o o' && rest_same_obs o o', [], false)
   | ACacheRemoveAll =>
       (no_gb_refs o' && no_gb_cache o' && refs_same_but is_gb o o' && rest_same_obs o o', [], true)
   | ACliWipe =>
